@@ -39,7 +39,7 @@ func specsStatic(thorough bool) []caseSpec {
 	for _, nr := range namedRings {
 		out = append(out, caseSpec{Shape: nr.Name, Entry: "export", Ticked: true})
 	}
-	for _, s := range []string{"hostloop", "host-recursion", "xmod-loop-1", "xmod-loop-2", "xmod-return_call-cycle"} {
+	for _, s := range []string{"hostloop", "host-recursion", "xmod-loop-1", "xmod-loop-2", "xmod-return_call-cycle", "xmod-call_indirect-entry"} {
 		out = append(out, caseSpec{Shape: s, Entry: "export", Ticked: true})
 	}
 	entryShapes := []string{"loop-br", "return_call-mutual-2"}
@@ -116,7 +116,13 @@ func specsFlavours() []caseSpec {
 	for _, s := range []string{"return_call-self", "return_call-mutual-2", "return_call_indirect-self", "self-recursion", "hostloop", "host-recursion", "xmod-loop-2"} {
 		out = append(out, caseSpec{Shape: s, Entry: "export", Ticked: true})
 	}
-	out = append(out, caseSpec{Shape: "loop-br", Entry: "start", Ticked: true}, caseSpec{Shape: "loop-br", Entry: "hostcb", Ticked: true})
+	out = append(out, caseSpec{Shape: "loop-br", Entry: "start", Ticked: true}, caseSpec{Shape: "loop-br", Entry: "hostcb", Ticked: true},
+		// straight-line entry functions that reach the cycle through call_indirect only (and the direct-call control)
+		caseSpec{Shape: "loop-br", Entry: "call_indirect-entry", Ticked: true},
+		caseSpec{Shape: "loop-br_if", Entry: "call_indirect-chain-entry", Ticked: true},
+		caseSpec{Shape: "return_call-self", Entry: "call_indirect-entry", Ticked: true},
+		caseSpec{Shape: "loop-br", Entry: "call-entry", Ticked: true},
+		caseSpec{Shape: "xmod-call_indirect-entry", Entry: "export", Ticked: true})
 	return out
 }
 
@@ -138,6 +144,9 @@ func specsTickless() []caseSpec {
 		caseSpec{Shape: "loop-br", Entry: "hostcb"},
 		caseSpec{Shape: "return_call-self", Entry: "start"},
 		caseSpec{Shape: "return_call-mutual-2", Entry: "return_call-entry"},
+		caseSpec{Shape: "loop-br", Entry: "call_indirect-entry"},
+		caseSpec{Shape: "loop-br_if", Entry: "call_indirect-chain-entry"},
+		caseSpec{Shape: "xmod-call_indirect-entry", Entry: "export"},
 	)
 	return out
 }
@@ -375,6 +384,21 @@ func (d *decider) emit() {
 		gs, gp := split(good)
 		detail := p.detail + fmt.Sprintf(" | %d violating cases: shapes %v at cause@moment %v; %d cases of the same family and engine do not violate: shapes %v at %v",
 			len(p.points), bs, bp, len(good), gs, gp)
+		sig := p.base
+		if strings.Contains(sig, "module-not-closed-after-ctx-done") || strings.HasPrefix(sig, "guest-entered-with-done-context") {
+			// the watcher / entry check is per entered function: name the entry kinds when only some are affected
+			be, ge := entryTokens(bs), entryTokens(gs)
+			only := false
+			for _, e := range ge {
+				if !contains(be, e) {
+					only = true
+				}
+			}
+			if only {
+				sig += ":entry=" + strings.Join(be, ",")
+			}
+		}
+		p.base = sig
 		w := map[string]any{"first": p.witness, "violating_shapes": bs, "violating_points": bp, "passing_shapes": gs, "passing_points": gp}
 		d.c.Violate(p.base, detail, w)
 		summary[p.base] = map[string]any{"violating_cases": len(p.points), "violating_shapes": bs, "violating_cause@moment": bp,
@@ -382,6 +406,39 @@ func (d *decider) emit() {
 	}
 	// also for signatures that are listed as known findings (which Violate only counts)
 	d.c.Extra("violations_by_signature", summary)
+}
+
+// entryTokens: the entry kinds (how the host-called function reaches the cycle) of a list of shape labels.
+func entryTokens(labels []string) []string {
+	set := map[string]bool{}
+	for _, l := range labels {
+		if i := strings.LastIndexByte(l, '+'); strings.HasPrefix(l, "conc[") && i >= 0 {
+			l = l[i+1:]
+		}
+		switch i := strings.LastIndexByte(l, '@'); {
+		case i >= 0:
+			set[l[i+1:]] = true
+		case strings.HasSuffix(l, "-entry"):
+			set[l] = true
+		default:
+			set["export"] = true
+		}
+	}
+	var out []string
+	for k := range set {
+		out = append(out, k)
+	}
+	sort.Strings(out)
+	return out
+}
+
+func contains(l []string, s string) bool {
+	for _, x := range l {
+		if x == s {
+			return true
+		}
+	}
+	return false
 }
 
 func witnessOf(tc tcase, res any) map[string]any {
